@@ -15,6 +15,18 @@ TRANSFORMER = "parsing.QuantityTransformer"
 ZONE_FUNCS = {"formatting.from_superscript", "Unit.resolve_symbol", "Prefix.resolve_symbol", "Unit.parse", "Quantity.parse"}
 
 
+# library calls that are partial on text: callee -> (exception, number of positional arguments for which it raises)
+PARTIAL_CALLS = {
+    "unicodedata.name": ("ValueError", 1), "unicodedata.numeric": ("ValueError", 1), "unicodedata.digit": ("ValueError", 1),
+    "unicodedata.decimal": ("ValueError", 1), "chr": ("ValueError", 1), "next": ("StopIteration", 1),
+    "Decimal": ("InvalidOperation", 1), "decimal.Decimal": ("InvalidOperation", 1), "Fraction": ("ValueError", 1),
+    "fractions.Fraction": ("ValueError", 1), "bytes.fromhex": ("ValueError", 1), "operator.index": ("TypeError", 1),
+    "math.log": ("ValueError", None), "math.log10": ("ValueError", None), "math.sqrt": ("ValueError", None),
+}
+PARTIAL_METHODS = {"index": ("ValueError", None), "encode": ("UnicodeEncodeError", None), "decode": ("UnicodeDecodeError", None),
+                   "remove": ("ValueError", 1)}
+
+
 def in_zone(prog: Program, f: str) -> bool:
     return prog.functions[f].module == "parsing" or f in ZONE_FUNCS
 
@@ -131,6 +143,32 @@ def run(rep: Report) -> None:
                 rep.check("R17.2", f"{f}:int({ast.unparse(n.args[0])[:30]})", ok,
                           f"`{ast.unparse(n)}` converts a digit token of unbounded length: beyond the interpreter's int-string limit "
                           f"(4300 digits) it raises ValueError, which escapes parse() ({why}) - catch it and raise ParseError", fi.where(n))
+    # other library calls that are partial on text, anywhere in the parser zone
+    for f in sorted(reach.reached):
+        fi = prog.functions[f]
+        if not in_zone(prog, f):
+            continue
+        mi = prog.modules[fi.module]
+        for n in Resolver._own_nodes(fi.node):
+            if not isinstance(n, ast.Call):
+                continue
+            callee = ast.unparse(n.func)
+            if isinstance(n.func, ast.Name) and n.func.id in mi.imports:
+                m_, a_ = mi.imports[n.func.id]
+                callee = f"{m_}.{a_}" if a_ else m_
+            spec = PARTIAL_CALLS.get(callee)
+            if spec is None and isinstance(n.func, ast.Attribute) and n.func.attr in PARTIAL_METHODS:
+                alts = resolver.expr_alts(fi, n.func.value)
+                if any(k == "inst" and full in ("builtins.str", "builtins.bytes", "builtins.list", "builtins.tuple") for k, full in alts):
+                    spec = PARTIAL_METHODS[n.func.attr]
+            if spec is None or (spec[1] is not None and len(n.args) + len(n.keywords) != spec[1]):
+                continue
+            if allowed(spec[0]):
+                continue
+            ok, why = _value_error_converted(prog, resolver, reach, f, n, allowed, set(), spec[0])
+            rep.check("R17.2", f"{f}:{callee}(..)", ok,
+                      f"`{ast.unparse(n)[:60]}` is partial: for some characters/text it raises {spec[0]}, which escapes parse() ({why}); "
+                      "only ParseError and KeyError may", fi.where(n))
     # bare `int` used as a callback
     for name in ("int", "float"):
         rhs = ci.aliases.get(name)
@@ -152,6 +190,8 @@ def run(rep: Report) -> None:
                 continue
             kind = w.location.split(".")[-1]
             if kind in NAMING_ATTRS and kind not in ("_base", "_fundamental") or (w.location.startswith("attr:") and fi.name != "__init__"):
+                if w.location.startswith("attr:") and _anonymous_init_store(prog, reach, f, w.node):
+                    continue
                 n3 += 1
                 rep.fail("R17.3", f"{f}:{w.location}", f"{f} (reachable from parsing: {' -> '.join(reach.path_to(f)[-4:])}) writes "
                          f"{w.location}: a parse - even a rejected one - changes the registered names/symbols", fi.where(w.node))
@@ -254,7 +294,8 @@ def run(rep: Report) -> None:
     rep.assume("dynamically typed arguments conform to declared annotations")
 
 
-def _value_error_converted(prog: Program, resolver: Resolver, reach: Reach, f: str, node: ast.AST, allowed, seen: Set[str]) -> Tuple[bool, str]:
+def _value_error_converted(prog: Program, resolver: Resolver, reach: Reach, f: str, node: ast.AST, allowed, seen: Set[str],
+                           exc: str = "ValueError") -> Tuple[bool, str]:
     """Is a ValueError raised at `node` in f caught and re-raised as an allowed class, here
     or at every feasible call site of f on the parse path?"""
     fi = prog.functions[f]
@@ -264,7 +305,10 @@ def _value_error_converted(prog: Program, resolver: Resolver, reach: Reach, f: s
         if isinstance(par, ast.Try) and any(p is s for s in par.body):
             for h in par.handlers:
                 names = [exc_name(x) for x in (h.type.elts if isinstance(h.type, ast.Tuple) else [h.type])] if h.type is not None else ["BaseException"]
-                if any(nm in ("ValueError", "Exception", "BaseException") for nm in names):
+                supers = {"ValueError": ("ValueError",), "UnicodeEncodeError": ("UnicodeEncodeError", "UnicodeError", "ValueError"),
+                          "UnicodeDecodeError": ("UnicodeDecodeError", "UnicodeError", "ValueError"),
+                          "InvalidOperation": ("InvalidOperation", "DecimalException", "ArithmeticError")}.get(exc, (exc,))
+                if any(nm in supers + ("Exception", "BaseException") for nm in names):
                     conv = any(isinstance(s, ast.Raise) and s.exc is not None and allowed(exc_name(s.exc)) for s in ast.walk(h))
                     return (conv, "caught here" if conv else "caught but not re-raised as ParseError/KeyError")
         p = par
@@ -275,10 +319,33 @@ def _value_error_converted(prog: Program, resolver: Resolver, reach: Reach, f: s
     if not callers:
         return False, f"not caught in {f}, which is an entry point"
     for g, cs in callers:
-        ok, why = _value_error_converted(prog, resolver, reach, g, cs.node, allowed, seen)
+        ok, why = _value_error_converted(prog, resolver, reach, g, cs.node, allowed, seen, exc)
         if not ok:
             return False, f"not caught in {f} nor in its caller {g}"
     return True, "caught by every caller"
+
+
+def _anonymous_init_store(prog: Program, reach: Reach, f: str, node: ast.AST) -> bool:
+    """`self.name = name` in a helper that, on the parse path, is only called by its own class's
+    __init__ on `self` and only ever receives None there: the anonymous initialisation of a
+    fresh object, not a renaming."""
+    fi = prog.functions[f]
+    tgt = node.targets[0] if isinstance(node, ast.Assign) and len(node.targets) == 1 else None
+    val = getattr(node, "value", None)
+    if not (isinstance(tgt, ast.Attribute) and isinstance(tgt.value, ast.Name) and fi.params() and tgt.value.id == fi.params()[0]):
+        return False
+    if isinstance(val, ast.Constant) and val.value is None:
+        none_only = True
+    elif isinstance(val, ast.Name) and val.id in fi.params():
+        vals = reach.values.get((f, val.id))
+        none_only = bool(vals) and all(k == "none" for k, _ in vals)
+    else:
+        none_only = False
+    if not none_only:
+        return False
+    callers = [(g, cs) for g in reach.reached for cs in reach.sites.get(g, []) if f in cs.targets]
+    return bool(callers) and all(prog.functions[g].name == "__init__" and prog.functions[g].cls == fi.cls and cs.receiver is not None
+                                 and ast.unparse(cs.receiver) == prog.functions[g].params()[0] for g, cs in callers)
 
 
 def _assert_infeasible(prog: Program, resolver: Resolver, rs) -> bool:
